@@ -20,7 +20,8 @@ REQUIRED = ["payload_only_in_payload_msg", "private_payload_release_sound", "dec
             "fact_payload_query_checks", "fact_payload_finished_nil_guard", "fact_collect_guard", "fact_payload_store_checks", "fact_payload_writers", "fact_authenticate_steps",
             "fact_authenticator_selection", "release_only_to_listed_false", "release_only_to_listed_partial", "dummy_authenticator_only_without_tls", "configured_authn_sound",
             "fact_server_tls_config", "authenticated_certificate_is_verified",
-            "connection_authenticated_only_via_authenticator", "fact_authenticate_call_sites"]
+            "connection_authenticated_only_via_authenticator", "fact_authenticate_call_sites",
+            "created_private_has_full_pal", "fact_encrypt_and_authenticator_stateless"]
 
 
 def run(ctx):
@@ -169,7 +170,7 @@ def run(ctx):
     # NutsComm host its certificate does not cover must be refused (strict or not); without TLS strict mode must refuse to start
     c_bad = 0
     cfg_lines = 0
-    if not ctx.replay or '"op":"configure"' in open(ctx.replay).read(4096):
+    if not ctx.replay or '"op":"configure"' in open(ctx.replay).read(4096) or '"op":"createtx"' in open(ctx.replay).read(4096):
         b2 = ctx.go_test_binary(PKG2, HARNESS2, "c15cfg")
         if b2 is None:
             ctx.oblige("harness-builds:network.Configure", False, ctx.harness_error[-1200:])
@@ -186,6 +187,16 @@ def run(ctx):
                 for k, l in enumerate(impl2):
                     j = json.loads(ops2[k])
                     wrong = None
+                    if j["op"] == "createtx":
+                        # the REAL Network.CreateTransaction: participants requested => failure, or a PAL header with one entry per participant
+                        m = re.search(r"ok pal=(\d+)", l)
+                        if j["parts"] and m and int(m.group(1)) != len(j["parts"]):
+                            c_bad += 1
+                            if c_bad > 1:
+                                continue
+                            ctx.violation("C15:private-transaction-created-without-full-pal", f"CreateTransaction with participants {j['parts']} produced a transaction with {m.group(1)} PAL entries "
+                                          f"(0 = PUBLIC: its payload is attached to every transaction list)", "createtx.jsonl", ops2[k])
+                        continue
                     if j["tls"] and ("liar-refused=true" not in l or "liar-auth=false" not in l):
                         wrong = ("C15:unverified-node-did-accepted-with-tls", "TLS is configured but a peer whose certificate does not cover the NutsComm host of the DID it claims is marked authenticated")
                     elif (not j["tls"]) and j["strict"] and not l.startswith("configure err:tls-disabled-strict"):
